@@ -89,6 +89,13 @@ impl Prop for C14Prop {
         let mut case = Case::new("C14", seed, specs);
         let n = rng.range(0, 7);
         let mut names: Vec<String> = vec![];
+        if rng.chance(1, 400) {
+            // one very long non-ASCII name behind a short ASCII prefix: any fixed-size read block of the file
+            // variant then ends inside a multi-byte character
+            let pad = "p".repeat(rng.below(4));
+            let ch = *rng.pick(&["\u{65e5}", "\u{e9}", "\u{1F600}"]);
+            names.push(format!("{}{}", pad, ch.repeat(rng.range(23_000, 45_000))));
+        }
         while names.len() < n {
             let s = if rng.chance(1, 5) { format!("n{}", names.len()) } else { tricky_name(&mut rng) };
             if !names.contains(&s) {
@@ -109,7 +116,7 @@ impl Prop for C14Prop {
             Tier::Quick => 3,
             Tier::Thorough => 5,
         };
-        case.envs = gen::keyings(seed, k).into_iter().map(|k| Env { keying: k, pool: 1, sched: 0 }).collect();
+        case.envs = gen::envs(seed, k);
         case.params.put("weights", J::s(["all unweighted", "mixed", "special values", "random bit patterns"][regime]));
         case
     }
